@@ -2,7 +2,7 @@ from .core import BASE_TRUST, Problem
 
 META = {
     "category": "proof",
-    "text": "Lean 4 theorem mutex_inv: in every state reachable by ANY interleaving of the individual system calls of ANY number of processes running the lock protocol of lib/file (O_EXCL `.lock`, `.rlock` created only under the lock, writer re-check), there are never two writers and never a writer together with a reader; lock files are removed only by their creator; a process that gives up has changed nothing. The protocol the theorem is about is tied to the source by regenerated effect lists and protocol flags (extract/fsproto, gen_eq_ref theorems) and by schedule replay: goroutine 'virtual processes' run the REAL handler code with every VerifPoint a yield point under seeded schedules; control files after every step are compared with the model and mutual exclusion / no-lost-update / no-leftover laws are checked on the real code",
+    "text": "Lean 4 theorem mutex_inv: in every state reachable by ANY interleaving of the individual system calls of ANY number of processes running the lock protocol of lib/file (O_EXCL `.lock`, `.rlock` created only under the lock, writer re-check), there are never two writers and never a writer together with a reader; lock files are removed only by their creator; a process that gives up has changed nothing; no_lost_update: under that mutual exclusion a read-modify-write by any number of writers in any interleaving ends as the update applied once per effective commit; gen_commit_publishes_before_release: the regenerated Handler.commit renames the new file into place before it removes the lock. The protocol the theorem is about is tied to the source by regenerated effect lists and protocol flags (extract/fsproto, gen_eq_ref theorems) and by schedule replay: goroutine 'virtual processes' run the REAL handler code with every VerifPoint a yield point under seeded schedules (uniformly random, priority based with change points (PCT), and a systematic 'park one process after k steps while the others run' sweep); control files after every step are compared with the model and mutual exclusion / no-lost-update / no-leftover laws are checked on the real code",
     "design_ref": "DESIGN.md section 5, C09",
     "note": "trusted: Lean kernel; extract/fsproto; open(O_CREAT|O_EXCL) and unlink are atomic, glob sees a consistent directory snapshot; flock(2) on the data file is a second mechanism in the code that the model does not need; the VerifPoint hooks (tag verif); virtual processes share one OS process (flock is per open file description, so conflicts behave as across processes)",
     "technique": "Lean 4 machine-checked inductive invariant over an unbounded-process transition system + regenerated protocol tie + schedule replay of the real handler code",
